@@ -112,6 +112,10 @@ func (w *Wallet) getActiveKeyset(mintURL string) (*crypto.WalletKeyset, error) {
 	if activeChanged {
 		// inactivate previous active
 		activeKeyset.Active = false
+		// the keyset in memory does not follow the counter: keep the stored one
+		if storedKeyset := w.db.GetKeyset(activeKeyset.Id); storedKeyset != nil {
+			activeKeyset.Counter = storedKeyset.Counter
+		}
 		mint.inactiveKeysets[activeKeyset.Id] = activeKeyset
 		if err := w.db.SaveKeyset(&activeKeyset); err != nil {
 			return nil, err
@@ -156,6 +160,9 @@ func (w *Wallet) getActiveKeyset(mintURL string) (*crypto.WalletKeyset, error) {
 		// check if input_fee_ppk changed for current active
 		if activeInputFeePpk != activeKeyset.InputFeePpk {
 			activeKeyset.InputFeePpk = activeInputFeePpk
+			if storedKeyset := w.db.GetKeyset(activeKeyset.Id); storedKeyset != nil {
+				activeKeyset.Counter = storedKeyset.Counter
+			}
 			if err := w.db.SaveKeyset(&activeKeyset); err != nil {
 				return nil, err
 			}
